@@ -172,9 +172,20 @@ pub fn alloc_drive(args: &[String]) {
     let append = arg_num(args, "--append", 0) == 1;
     let mut w = TraceWriter::open(out, append, 20_000);
     let limits = [3_000usize, 6_000, 12_000, 40_000, 400 * 1024];
+    // hand-written (first case of the `alloc` profile): data that becomes garbage by mutation alone - a large table dropped by
+    // overwriting the global that holds it - while no new object is created, then another table grows into the room
+    let crafted = P { fns: vec![F { name: "main".into(), params: vec![], body: vec![
+            setg("big", card("CreateTable", vec![])), setg("acc", card("CreateTable", vec![])),
+            repeat("j", int(400), block(vec![setg("junk", card("CreateTable", vec![]))])),
+            repeat("i", int(600), block(vec![card("AppendTable", vec![read("i"), read("big")])])),
+            setg("big", nil()),
+            repeat("k", int(600), block(vec![card("AppendTable", vec![read("k"), read("acc")])])),
+            setg("n", card("Len", vec![read("acc")]))] }], natives: vec![], imports: vec![] };
     for id in start..n {
         let mut rng = Rng::new(seed.wrapping_mul(7_919_117).wrapping_add(id as u64));
-        let p = Gen::new(&mut rng, Profile::named(&profile)).program();
+        let is_crafted = id == 0 && profile == "alloc";
+        let p = if is_crafted { crafted.clone() } else { Gen::new(&mut rng, Profile::named(&profile)).program() };
+        let limits: Vec<usize> = if is_crafted { vec![72_000, 80_000, 100_000] } else { limits.to_vec() };
         let compiled = match cao_lang::compiler::compile(p.to_module(), None) {
             Ok(c) => c,
             Err(_) => continue,
@@ -322,6 +333,12 @@ fn life_programs(rng: &mut Rng) -> Vec<(String, P, u64)> {
     v.push(("stack-overflow".to_string(), mk(vec![repeat("i", int(400), block(vec![call("one", vec![])]))], vec![f("one", &[], vec![card("Return", vec![int(1)])])]), 100_000));
     v.push(("native-error".to_string(), mk(vec![setg("a", int(1)), native("fail0", vec![])], vec![]), 100_000));
     v.push(("type-error".to_string(), mk(vec![setg("a", strlit("x")), card("GetProperty", vec![int(1), int(2)])], vec![]), 100_000));
+    // values left in stack slots by a call with three arguments / a local that is only declared in a branch that is not taken
+    // (reading it yields nil, whatever an earlier run left in that slot)
+    v.push(("three-arg-call".to_string(), mk(vec![setg("s", call("add3", vec![int(11), int(9), int(5)]))],
+                                             vec![f("add3", &["x", "y", "z"], vec![card("Return", vec![card("Add", vec![read("x"), card("Add", vec![read("y"), read("z")])])])])]), 100_000));
+    v.push(("untaken-branch-local".to_string(), mk(vec![setv("a", int(1)), card("IfTrue", vec![int(0), block(vec![setv("x", int(5)), setv("y", int(6))])]),
+                                                        setv("x", int(8)), setg("g", read("y"))], vec![]), 100_000));
     v.push(("leaves-values".to_string(), mk(vec![call("one", vec![]), call("one", vec![]), setv("l", card("CreateTable", vec![])), setg("t", read("l"))],
                                              vec![f("one", &[], vec![card("Return", vec![strlit("left on the stack")])])]), 100_000));
     v
@@ -355,8 +372,13 @@ pub fn life_drive(args: &[String]) {
         let long = id % 5 == 4;
         let steps = if long { 300 } else { len };
         let fixed = rng.below(3);
-        for _ in 0..steps {
-            if !long && rng.chance(1, 4) {
+        let idx = |name: &str| progs.iter().position(|(n, _, _)| n == name).unwrap();
+        // every history starts with: three-argument call, clear, the program that reads a never-written local slot
+        let script: Vec<Option<usize>> = vec![Some(idx("three-arg-call")), None, Some(idx("untaken-branch-local")), Some(idx("three-arg-call")),
+                                              Some(idx("untaken-branch-local"))];
+        for step in 0..steps + script.len() {
+            let scripted = if !long && step < script.len() { Some(script[step]) } else { None };
+            if scripted == Some(None) || (scripted.is_none() && !long && rng.chance(1, 4)) {
                 w.begin(id, &json!({"e": "Clear"}));
                 let r = guarded(|| {
                     vm.clear();
@@ -371,7 +393,10 @@ pub fn life_drive(args: &[String]) {
                 }
                 continue;
             }
-            let pi = if long { fixed } else { rng.below(progs.len()) };
+            let pi = match scripted {
+                Some(Some(k)) => k,
+                _ => if long { fixed } else { rng.below(progs.len()) },
+            };
             let (name, p, budget) = &progs[pi];
             w.begin(id, &json!({"e": "Run", "p": name}));
             let r = guarded(|| {
@@ -574,9 +599,25 @@ pub fn instr_drive(args: &[String]) {
     let append = arg_num(args, "--append", 0) == 1;
     let max_events = arg_num(args, "--max-events", 4000) as usize;
     let mut w = TraceWriter::open(out, append, 20_000);
+    // with the `hosttry` profile the first cases are hand-written: a recursion that reaches the last call frames and, at the
+    // bottom, a host function that re-enters the interpreter and handles the failure (call-stack overflow of the re-entry)
+    let crafted: Vec<P> = if profile == "hosttry" {
+        (249..258).map(|depth: i64| {
+            let f = |name: &str, params: &[&str], body: Vec<C>| F { name: name.into(), params: params.iter().map(|x| x.to_string()).collect(), body };
+            P { fns: vec![f("main", &[], vec![setv("keep", int(5)), setg("r", call("rec", vec![int(depth)])), setg("k", read("keep"))]),
+                          f("rec", &["n"], vec![card("IfTrue", vec![card("Less", vec![int(0), read("n")]),
+                                                                   card("Return", vec![card("Add", vec![int(1), call("rec", vec![card("Sub", vec![read("n"), int(1)])])])])]),
+                                                setv("l", int(3)),
+                                                setg("t", native("try1", vec![closure(&["p"], vec![card("Return", vec![card("Add", vec![read("p"), int(1)])])]), int(40)])),
+                                                card("Return", vec![read("l")])])],
+                natives: vec![], imports: vec![] }
+        }).collect()
+    } else {
+        vec![]
+    };
     for id in start..n {
         let mut rng = Rng::new(seed.wrapping_mul(7_919_117).wrapping_add(id as u64));
-        let p = Gen::new(&mut rng, Profile::named(&profile)).program();
+        let p = if id < crafted.len() { crafted[id].clone() } else { Gen::new(&mut rng, Profile::named(&profile)).program() };
         let pj = json!({"id": id, "profile": profile, "prog": p.to_json()});
         let compiled = match cao_lang::compiler::compile(p.to_module(), None) {
             Ok(c) => c,
@@ -682,6 +723,39 @@ pub fn persist_drive(args: &[String]) {
                 w.end(json!({"e": "Note", "case": variant}));
             }
             Err(msg) => w.end(json!({"e": "Panic", "msg": msg})),
+        }
+    }
+    // a closure over a PARAMETER of a called-back function escapes, the callee then fails and the host function handles the
+    // failure: the closure keeps the parameter's value, the caller's locals are untouched
+    w.line(json!({"e": "Reset", "case": 4}));
+    {
+        let esc = closure(&[], vec![card("Return", vec![read("p")])]);
+        let cb = closure(&["p"], vec![setg("esc", esc), setv("q", card("Add", vec![read("p"), int(1)])),
+                                      setg("esc2", closure(&[], vec![card("Return", vec![read("q")])])), native("fail0", vec![]), card("Return", vec![int(0)])]);
+        let body = vec![setv("r", int(7)), setg("t", native("try1", vec![cb, int(42)])), setv("s", int(99)),
+                        setg("out", dyncall(read("esc"), vec![])), setg("out2", dyncall(read("esc2"), vec![])),
+                        setg("mine", card("Add", vec![read("r"), read("s")]))];
+        let p = P { fns: vec![f("main", &[], body)], natives: vec![Native { name: "fail0".into(), arity: 0, beh: "fail", types: vec![] }], imports: vec![] };
+        if let Ok(c) = cao_lang::compiler::compile(p.to_module(), None) {
+            w.begin(4, &json!({"e": "Persist", "variant": 4}));
+            let r = guarded(|| {
+                let mut vm = make_vm(&p, &RunCfg::default());
+                let ok = vm.run(&c).is_ok();
+                let unset = || json!({"t": "unset"});
+                let rd = |n: &str| vm.read_var_by_name(n, &c.variables).map(|v| deep(v, 0)).unwrap_or_else(unset);
+                (ok, rd("out"), rd("out2"), rd("mine"))
+            });
+            match r {
+                Ok((ok, out, out2, mine)) => {
+                    let int = |n: i64| json!({"e":0,"i":n,"s":"","t":"int"});
+                    w.line(json!({"e": "Persist", "what": "closure over a parameter of a called-back function that failed", "made": true, "ok": ok,
+                                  "want": int(42), "got": out, "caller_want": int(106), "caller_got": mine}));
+                    w.line(json!({"e": "Persist", "what": "closure over a local of a called-back function that failed", "made": true, "ok": ok,
+                                  "want": int(43), "got": out2, "caller_want": int(106), "caller_got": mine}));
+                    w.end(json!({"e": "Note", "case": 4}));
+                }
+                Err(msg) => w.end(json!({"e": "Panic", "msg": msg})),
+            }
         }
     }
     w.finish();
